@@ -713,7 +713,7 @@ func (sc *scenario) finish(nThreads int, wg *sync.WaitGroup, watchdog time.Durat
 			continue
 		}
 		ok := false
-		for i := 0; i < 50 && !ok; i++ {
+		for i := 0; i < 500 && !ok; i++ {
 			if kind == "s" {
 				l, err := net.Listen("tcp", sc.addrs[k])
 				if err == nil {
@@ -738,7 +738,7 @@ func (sc *scenario) finish(nThreads int, wg *sync.WaitGroup, watchdog time.Durat
 		if sc.kinds[it.key] != "s" || !it.ok {
 			continue
 		}
-		it.conn.SetReadDeadline(time.Now().Add(400 * time.Millisecond))
+		it.conn.SetReadDeadline(time.Now().Add(1500 * time.Millisecond))
 		b, err := io.ReadAll(it.conn)
 		fate := "closed"
 		by := 0
@@ -770,7 +770,7 @@ func (sc *scenario) finish(nThreads int, wg *sync.WaitGroup, watchdog time.Durat
 	sc.mu.Unlock()
 	// goroutines of the shared listeners must be gone (grace period)
 	n, states := 0, ""
-	for i := 0; i < 100; i++ {
+	for i := 0; i < 1000; i++ { // generous grace period: it only costs time when something really is left
 		n, states = countLeaks()
 		if n <= leaksBefore {
 			break
